@@ -8,9 +8,11 @@ theorems below are what bounds the recursion that oracle has to survive.
 -/
 import AndaVerif.Proofs.KipLex
 import AndaVerif.Proofs.KipClassify
+import AndaVerif.Proofs.KipJson
 
 namespace AndaVerif.Props.C15
 open AndaVerif.Model.KipLex AndaVerif.Proofs.KipLex AndaVerif.Proofs.KipClassify
+open AndaVerif.Model.KipJson AndaVerif.Proofs.KipJson
 open AndaVerif.Gen.KipLimits
 
 /-! ## The generated tables are the ones the model was written for -/
@@ -343,5 +345,105 @@ theorem words_trivia_uniform (uni : Char → Bool) (w1 w2 t1 t2 rest : List Char
 example : matchWords (fun _ => false) ["AS".toList, "OF".toList] "as\x0c// c\n of ".toList = true ∧
           matchWords (fun _ => false) ["AS".toList, "OF".toList] "ASOF".toList = false ∧
           matchWords (fun _ => false) ["AS".toList, "OF".toList] "AS /OF".toList = false := by decide
+
+/-! ## classify — every other leading character
+
+After trivia a command starts with an ASCII letter or it belongs to no family: a byte order mark, a
+digit, a quote, `?`, `:`, a bracket, a lone `/`, any non-ASCII character — all refused by every family. -/
+
+theorem classify_needs_letter (uni : Char → Bool) (c : Char) (s : List Char)
+    (hw : isWhitespace c = false) (hs : c ≠ '/') (hl : isAsciiLetter c = false) :
+    classify uni (c :: s) = none := by
+  have hs' : (c == '/') = false := by simpa using hs
+  have hskip : skipTrivia (c :: s) = c :: s := by rw [skipTrivia_cons, hw, hs']; simp
+  unfold classify classifyIn
+  rw [hskip]
+  have hall : headTable.all (fun x => match x.2 with
+      | k :: _ => isAsciiLetter k
+      | [] => false) = true := by decide
+  have hnone : headTable.find? (fun e => matchWord uni e.2 (c :: s)) = none := by
+    apply List.find?_eq_none.mpr
+    intro e he
+    have hx := List.all_eq_true.mp hall e he
+    cases hk : e.2 with
+    | nil => rw [hk] at hx; cases hx
+    | cons k ks =>
+      rw [hk] at hx
+      simp only [matchWord, matchKeyword]
+      by_cases hf : (foldNat k == foldNat c) = true
+      · exfalso
+        rcases foldNat_eq_cases (beq_iff_eq.mp hf) with rfl | ⟨_, hc⟩
+        · rw [hl] at hx; cases hx
+        · rw [hl] at hc; cases hc
+      · simp [hf]
+  rw [hnone]
+
+example : classify (fun _ => false) "\uFEFFFIND(?x)".toList = none ∧
+          classify (fun _ => false) "/ FIND".toList = none ∧
+          classify (fun _ => false) "\"FIND\"".toList = none := by decide
+
+/-! ## parse_json — the JSON sub-parser (parser/json.rs), modelled combinator by combinator
+
+The model (`Model/KipJson.lean`) is compared with `anda_kip::parse_json` answer for answer by the harness
+(`j` requests: verdict and canonical value). Its recursion runs on a fuel that counts nesting; the two
+theorems below say that this fuel is only a termination device and what it bounds. -/
+
+/-- More fuel never changes an answer: whenever the parser with nesting fuel `n` has an answer (did not
+run out), every larger fuel gives the same one. -/
+theorem json_fuel_irrelevant (n k : Nat) (s : List Char) (h : pValue n s ≠ .oof) :
+    pValue (n + k) s = pValue n s := pValue_mono n k s h
+
+/-- Hence "the" answer of the model is well defined: any two fuels that suffice agree. -/
+theorem json_answer_unique (n m : Nat) (s : List Char) (hn : pValue n s ≠ .oof) (hm : pValue m s ≠ .oof) :
+    pValue n s = pValue m s := by
+  rcases Nat.le_total n m with h | h
+  · obtain ⟨k, rfl⟩ := Nat.exists_eq_add_of_le h
+    exact (json_fuel_irrelevant n k s hn).symm
+  · obtain ⟨k, rfl⟩ := Nat.exists_eq_add_of_le h
+    exact json_fuel_irrelevant m k s hm
+
+/-- The recursion depth bounds the tree: a value parsed with nesting fuel `n` nests at most `n` deep
+(so a recursive `Drop` / `Clone` / encoder of the tree recurses no deeper than the parser did). -/
+theorem json_depth_le_fuel (n : Nat) (s : List Char) (v : Json) (r : List Char)
+    (h : pValue n s = .ok v r) : v.depth ≤ n := pValue_depth n s v r h
+
+/-- `parse_json` refuses what the budget refuses before any parsing, and what it returns is a tree of
+bounded depth from a text within the documented limits. -/
+theorem parse_json_budgeted (s : List Char) :
+    (validateBudgetKip s = .error .tooLong → parseJson s = .tooLong) ∧
+    (validateBudgetKip s = .error .tooDeep → parseJson s = .tooDeep) ∧
+    (∀ v, parseJson s = .ok v →
+      validateBudgetKip s = .ok () ∧ utf8Len s ≤ 256 * 1024 ∧
+      strictDepth [] (codeBrackets s) 0 ≤ 64 ∧ v.depth ≤ jsonFuel) := by
+  refine ⟨fun h => by simp [parseJson, h], fun h => by simp [parseJson, h], ?_⟩
+  intro v h
+  unfold parseJson at h
+  cases hb : validateBudgetKip s with
+  | error e => cases e <;> simp [hb] at h
+  | ok u =>
+    cases u
+    simp only [hb] at h
+    have hbd := budget_bounds_depth_kip s hb
+    refine ⟨rfl, hbd.1, hbd.2.2, ?_⟩
+    cases hp : pValue jsonFuel (skipTrivia s) with
+    | ok w rest =>
+      simp only [hp] at h
+      split at h
+      · injection h with h; subst h
+        exact json_depth_le_fuel _ _ _ _ hp
+      · cases h
+    | err => simp [hp] at h
+    | fail => simp [hp] at h
+    | oof => simp [hp] at h
+
+example : (match pValue 3 "[1,{a:null,\"b\\u00e9\":-0,},]".toList with
+    | .ok (.arr [.int 1, .obj [(['a'], .null), (['b', 'é'], .int 0)]]) [] => true
+    | _ => false) = true := by decide
+example : (match pValue 2 "[[1]]".toList with | .oof => true | _ => false) = true ∧
+          (match pValue 3 "[[1]]".toList with | .ok _ [] => true | _ => false) = true ∧
+          (match pValue 9 "[,]".toList with | .ok (.arr []) [] => true | _ => false) = true ∧
+          (match pValue 9 "{a:1,\"a\":2}".toList with | .fail => true | _ => false) = true ∧
+          (match pValue 9 "\"\\ud83d\"".toList with | .fail => true | _ => false) = true ∧
+          (match pValue 9 "01".toList with | .err => true | _ => false) = true := by decide
 
 end AndaVerif.Props.C15
